@@ -39,7 +39,7 @@ ASSUMPTIONS = [
 ]
 PROBES = ["inline image", "xobject image", "gray8", "rgb8", "1bit", "dct", "filter chain", "unfiltered", "row padding needed", "boundary placed in inline markers", "contents split after image", "inline data contains EI", "preexisting export name", "two images same name", "bmp exported", "jpg exported"]
 TIERS = {
-    "quick": {"batches": 16, "runs": 60, "budget_s": 50},
+    "quick": {"batches": 16, "runs": 450, "budget_s": 50},
     "thorough": {"batches": 128, "runs": 500, "budget_s": 1200},
 }
 DETERMINISM_SLICE = 4
@@ -123,7 +123,7 @@ def name_bytes(nm):
     return bytes(s.out)
 
 
-def build_document(t, ctx, images, with_images=True):
+def build_document(t, ctx, images, page_of, with_images=True):
     objects = {}
     nxt = [3]
 
@@ -133,12 +133,14 @@ def build_document(t, ctx, images, with_images=True):
         return Ref(nxt[0], 0)
 
     font = alloc(docs.std_font(b"Helvetica"))
-    xobjs = {}
-    parts = []  # (bytes, is_image_end)
-    marks = []  # offsets of interest inside the content stream
-    pos = 0
+    npages = max(page_of) + 1
+    xobjs = [dict() for _ in range(npages)]
+    parts = [[] for _ in range(npages)]
+    marks = []  # offsets of interest inside the content stream of the first page
+    pos = [0] * npages
     names = []
     for i, im in enumerate(images):
+        pg = page_of[i]
         place = b"q %d 0 0 %d %d %d cm " % (im["w"], im["h"], 20 + 45 * i, 500)
         if not with_images:
             seg = b""
@@ -151,40 +153,41 @@ def build_document(t, ctx, images, with_images=True):
                 d += (b"/F " if abbr else b"/Filter ") + (b"[" + fl + b"]" if len(im["chain"]) > 1 or t.coin(30, 100, "inl.farr") else fl) + b" "
             head = place + b"BI " + d + b"ID "
             seg = head + im["data"] + b"\nEI\n" + b"Q "
-            base = pos + len(head)
-            marks += [base - 2, base - 1, base, base + len(im["data"]), base + len(im["data"]) + 1, base + len(im["data"]) + 2, base + len(im["data"]) + 3, base + len(im["data"]) + 4]
+            if pg == 0:
+                base = pos[pg] + len(head)
+                marks += [base - 2, base - 1, base, base + len(im["data"]), base + len(im["data"]) + 1, base + len(im["data"]) + 2, base + len(im["data"]) + 3, base + len(im["data"]) + 4]
             if b"EI" in im["data"]:
                 ctx.probe("inline data contains EI")
             names.append(None)
         else:
-            nm = t.pick([b"Im1", b"Im2", b"Im1", b"Picture", b"a.b"], "xobj.name") if i else b"Im1"
-            if nm in xobjs:
+            nm = b"Im1" if not xobjs[pg] else t.pick([b"Im2", b"Picture", b"a.b", b"Im1.0"], "xobj.name")
+            if nm in xobjs[pg]:
                 nm = nm + b"%d" % i
             d = {b"Type": Name(b"XObject"), b"Subtype": Name(b"Image"), b"Width": im["w"], b"Height": im["h"], b"BitsPerComponent": im["bits"], b"ColorSpace": Name(im["cs"].encode())}
             if im["chain"]:
                 fl = [Name(f.encode()) for f in im["chain"]]
                 d[b"Filter"] = fl[0] if len(fl) == 1 and t.coin(60, 100, "x.fsingle") else fl
             st = docs.content_stream(im["data"], extra=d)
-            xobjs[nm] = alloc(st)
+            xobjs[pg][nm] = alloc(st)
             seg = place + name_bytes(nm) + b" Do Q "
             names.append(nm.decode("latin-1"))
         text = b"BT /F1 9 Tf %d %d Td (after%d) Tj ET\n" % (20 + 45 * i, 480, i)
-        parts.append(seg)
-        pos += len(seg)
-        parts.append(text)
-        pos += len(text)
-    content = b"".join(parts)
-    # optional split of the content right after an image
-    pieces = [content]
-    if with_images and t.coin(35, 100, "split"):
-        k = t.draw(len(images), "split.at")
-        off = sum(len(p) for p in parts[: 2 * k + 1])
-        pieces = [content[:off], content[off:]]
-        ctx.probe("contents split after image")
-    refs = [alloc(docs.content_stream(p)) for p in pieces]
+        parts[pg].append(seg)
+        parts[pg].append(text)
+        pos[pg] += len(seg) + len(text)
+    kids = []
+    for pg in range(npages):
+        content = b"".join(parts[pg])
+        pieces = [content]
+        if with_images and parts[pg] and t.coin(35, 100, "split"):
+            k = t.draw(len(parts[pg]) // 2, "split.at")
+            off = sum(len(p) for p in parts[pg][: 2 * k + 1])
+            pieces = [content[:off], content[off:]]
+            ctx.probe("contents split after image")
+        refs = [alloc(docs.content_stream(p)) for p in pieces]
+        kids.append(alloc({b"Type": Name(b"Page"), b"Parent": Ref(2, 0), b"MediaBox": [0, 0, 612, 792], b"Contents": refs if len(refs) > 1 else refs[0], b"Resources": {b"Font": {b"F1": font}, b"XObject": xobjs[pg]}}))
     objects[1] = {b"Type": Name(b"Catalog"), b"Pages": Ref(2, 0)}
-    objects[2] = {b"Type": Name(b"Pages"), b"Kids": [Ref(3, 0)], b"Count": 1}
-    objects[3] = {b"Type": Name(b"Page"), b"Parent": Ref(2, 0), b"MediaBox": [0, 0, 612, 792], b"Contents": refs if len(refs) > 1 else refs[0], b"Resources": {b"Font": {b"F1": font}, b"XObject": xobjs}}
+    objects[2] = {b"Type": Name(b"Pages"), b"Kids": kids, b"Count": len(kids)}
     return docs.build_pdf(objects, 1).getvalue(), [m for m in marks if m > 0], names
 
 
@@ -264,15 +267,19 @@ def run(tape, ctx, item=None):
         else:
             im["inline"] = False
         images.append(im)
-    data, marks, names = build_document(t, ctx, images)
+    page_of = [0] + [t.draw(2, "page.of") for _ in images[1:]]
+    if 1 in page_of:
+        page_of = [p if 0 in page_of else 0 for p in page_of]
+    page_of = sorted(page_of)
+    data, marks, names = build_document(t, ctx, images, page_of)
     # ---------------------------------------------------------------- reading under chunk schedules
     scen = []
     glyphs_ref = None
     if any(im["inline"] for im in images):
-        plain, _, _ = build_document(core_null_tape(), ctx_null(), images, with_images=False)
+        plain, _, _ = build_document(core_null_tape(), ctx_null(), images, page_of, with_images=False)
         try:
             pg = list(HL.extract_pages(io.BytesIO(plain), laparams=None))
-            glyphs_ref = [(c.get_text(), tuple(c.matrix)) for c in items_of(pg[0], L.LTChar)]
+            glyphs_ref = [(c.get_text(), tuple(c.matrix)) for p_ in pg for c in items_of(p_, L.LTChar)]
         except Exception as e:
             raise core.HarnessError("image-free document does not extract: %r" % (e,))
     for k in range(3):
@@ -295,7 +302,7 @@ def run(tape, ctx, item=None):
             seams.CHUNK.policy = None
         cfg = "chunk=%s images=%s" % (pdesc, [(im["kind"], "inline" if im["inline"] else "xobject", im["w"], im["h"], im["chain"]) for im in images])
         scen.append(pdesc)
-        got = items_of(pages[0], L.LTImage)
+        got = [x for p_ in pages for x in items_of(p_, L.LTImage)]
         if len(got) != len(images):
             devs.append(Dev("C18:image-count", "%d LTImage items, document has %d images; %s" % (len(got), len(images), cfg)))
         else:
@@ -313,7 +320,7 @@ def run(tape, ctx, item=None):
                 csn = [getattr(c, "name", c) for c in lt.colorspace]
                 if csn not in ([im["cs"]], [ABBR_CS[im["cs"]]]):
                     devs.append(Dev("C18:%s:colorspace" % tag, "image %d: colorspace %r, stored %s; %s" % (i, lt.colorspace, im["cs"], cfg)))
-        glyphs = [(c.get_text(), tuple(c.matrix)) for c in items_of(pages[0], L.LTChar)]
+        glyphs = [(c.get_text(), tuple(c.matrix)) for p_ in pages for c in items_of(p_, L.LTChar)]
         if glyphs_ref is not None and glyphs != glyphs_ref:
             devs.append(Dev("C18:glyphs-after-inline-image", "glyphs %r, without the images %r; %s" % ("".join(g[0] for g in glyphs), "".join(g[0] for g in glyphs_ref), cfg)))
     # ---------------------------------------------------------------- export
